@@ -18,7 +18,7 @@ def treeOk (sup : Option Pos) (p : Pos) (c : Ctx) (hasRoot : Bool) : Bool :=
     else c.first && !c.last
   | .middle => !c.first && !c.last
   | .last => if supFirstMid sup then !c.first && !c.last else !c.first && c.last
-  | .only => c.first && c.last && (!hasRoot || sup.isNone)
+  | .only => c.first && c.last && (!hasRoot || (sup.isNone || sup == some .first || sup == some .only))
 
 /-- can this repetition iterate more than once? -/
 def iterates (hi : Option Nat) : Bool := match hi with | some h => decide (2 ≤ h) | none => true
